@@ -1,9 +1,9 @@
 #!/bin/bash
-# usage: scratch_facts.sh <diff>  — applies the diff to a scratch copy of /repo and extracts facts into .cache/facts/selftest (for inspection)
+# usage: scratch_facts.sh <diff> [config]  — applies the diff to a scratch copy of /repo and extracts facts into .cache/facts/<config> (default: inspect)
 S=$HOME/.cache/paseto-verif-inspect/repo; mkdir -p $S
-D=$(realpath "$1")
+D=$(realpath "$1"); C=${2:-inspect}
 rsync -a --delete --exclude target --exclude .git /repo/ $S/ && (cd $S && patch --batch -p1 -s -i "$D" < /dev/null) && cd /verif && python3 - <<PY
 import sys; sys.path.insert(0,'/verif/sa')
 import extract, os
-print(extract.extract("selftest", repo="$S", target=os.path.join(extract.CACHE,"target-selftest")))
+print(extract.extract("$C", repo="$S", target=os.path.join(extract.CACHE,"target-$C")))
 PY
